@@ -112,6 +112,14 @@ PROPS = {
         "note": "Trusted: Coq kernel; float64 Size() comparison with the threshold modelled as exact integer comparison (either branch is proved right, so rounding cannot change the meaning); sort.Find modelled as lookup of the containing piece (unique by the chain invariant). No axioms.",
         "assumptions": ["bounds of magnitude up to 2^62 (no int64 wrap in a+1 / r++)", "the registered holder uses RangeMin = MinInt64 (ranges below a custom minimum are dropped, recorded as an observation)"],
     },
+    "C18": {
+        "level": "proof",
+        "design_ref": "§6 C18",
+        "technique": "Coq theorems stated for an arbitrary term matcher (k-groups end to end at stream level, generic scan for compact, order-independent fold for roaring); identical documents and assignments run through the three real indexes under three parser configurations and compared pairwise, each index also against its executable model, inside Coq",
+        "text": "agreement is derived from exactness of each implementation against one satisfaction predicate that is parametric in the matcher induced by the configured parsers (no independent specification of value shapes needed); identical inputs from the representation zoo (incl. shapes without written specification) go to the k-groups, compact and roaring index with common / number / string-hash parsers and the three answers are compared pairwise.",
+        "note": "Trusted: as C01/C03. The compact and roaring legs are proved at scan/fold level (any sorted streams / any field results); their builder-level glue is covered by the executable models compared on every run. Known finding: zero configured roaring fields (F14).",
+        "assumptions": ["all three accept every document and answer the query", "at least one configured field"],
+    },
 }
 
 # properties not claimed (reason); empty when everything is claimed
